@@ -36,6 +36,21 @@ CHECKS["C04"] = dict(
    note="Ad and bracket on direct products raise NotImplementedError (out of scope, counted). The clause Ad_exp(x)=expm(ad_x) is decided with the ExpLog vectors of C02 (op AdExp). Not decided: irrational elements.",
 )
 
+CHECKS["C02"] = dict(
+   technique="TLA+ spec ExpLog.tla (half-angle algebra elements with exact quaternion exponentials, symbolic V-matrix V0+mu*V1 characterised by V[x]x=R-I and Vx=x, rational screw-form one-parameter subgroups) model-checked by TLC; every state replayed into LieAlgebraElement.exp for every algebra/group/representation",
+   category="model_checking",
+   text="TLC enumerates algebra elements whose exponential is exactly representable: rotation vectors theta*v/|v| with theta = 2 atan2(|v|, w) for integer (w, v) (exactly 0, 5e-4 rad, both neighbours of both Taylor switches, 90/120/180 degrees, beyond pi up to 2 pi - 0.5 and, through integer multiples s*x, beyond 2 pi), translations in general form (expectation V0 rho + mu V1 rho with the single transcendental scalar mu supplied by the harness) and in screw form (expectation fully rational for every integer multiple). TLC proves the dexp characterisation of V, V V^-1 = I and the one-parameter-subgroup laws E(s)E(t)=E(s+t), E(0)=Id, E(-s)=E(s)^-1 on every point; the code's exp, exp(-x), inverse, exp((s+t)x) and exp(sx)exp(tx) must reproduce the exact matrices within 1e-9 for so(3)->quat/mrp/dcm/euler, se(3), se_2(3), so(2), se(2), r^n and two direct sums.",
+   design_ref="6/C02",
+   note="Trusted: embedding doubles nu=theta/sigma, mu=1/(theta*sigma) (self-tested against mpmath.expm, 40 digits, at every run). Not decided: angles not of rational half-angle type (dense countable subset only); Euler targets at an exact gimbal pole are excluded.",
+)
+CHECKS["C03"] = dict(
+   technique="TLA+ spec ExpLog.tla (principal representative, symbolic V^-1 = V0 + nu*W1 proven inverse of V by TLC) model-checked by TLC; every state replayed into LieGroupElement.log and the exp/log round trips in every representation and quaternion sign",
+   category="model_checking",
+   text="For every lattice rotation in all four SO(3) representations and both quaternion signs (hence shadow and non-shadow MRPs), with translations for SE(3)/SE_2(3)/SE(2), the code's log must equal the exact principal element (angle <= pi, translation V^-1 p in symbolic-nu form) within 1e-9, exp(log X) must have X's exact matrix, and log(exp x) = x for angles below pi. Representation independence follows because all representations are compared with the same exact vector.",
+   design_ref="6/C03",
+   note="Excluded exactly as the property states: angles within 0.01 rad of pi (nearest kept points pi-0.02..pi-0.18), shadow-set MRP inputs only for exp(log X)=X. Trusted: embedding doubles (mpmath self-test).",
+)
+
 NOT_YET = {}
 
 ALL = [f"C{i:02d}" for i in range(1, 21)]
